@@ -12,7 +12,7 @@ func init() {
 	register(&propDef{
 		id: "C03", title: "Messages from one sender are processed in the order they were sent",
 		technique: "call-graph effect rule (no goroutine/channel hop between the send API and Mailbox.Enqueue), loop-shape rule for batch sends and unstash, publication-order rule for the default MPSC mailbox (shared with C04)",
-		explanation: "Decides necessary conditions of per-sender FIFO that are visible in the code shape: (1) the local send path is synchronous up to the enqueue: from Tell/Ask/BatchTell/ReceiveContext.Tell/... the call chain to PID.doReceive contains no 'go' statement and no asynchronous hand-off (two sends issued in program order by one goroutine reach Enqueue in that order); (2) batch sends iterate the argument slice in index order, one Tell/Ask per element, and stop at the first error; (3) unstashAll dequeues the stash until it is empty and re-enqueues in dequeue order, every dequeue and its re-enqueue happen with the stash lock held (a drain is one critical section: two concurrent drains cannot interleave), unstash moves exactly one message; the stash box is a FIFO UnboundedMailbox; (4) the default mailbox's enqueue publishes in the order clear-next, swap-tail, link-prev and its dequeue follows next pointers from the head (FIFO list); (5) the turn loop dequeues the user mailbox at exactly one site. FIFO of the lock-free queues under all producer interleavings is not decided.",
+		explanation: "Decides necessary conditions of per-sender FIFO that are visible in the code shape: (1) the local send path is synchronous up to the enqueue: from Tell/Ask/BatchTell/ReceiveContext.Tell/... the call chain to PID.doReceive contains no 'go' statement and no asynchronous hand-off (two sends issued in program order by one goroutine reach Enqueue in that order); (2) batch sends iterate the argument slice in index order, one Tell/Ask per element, and stop at the first error; (3) unstashAll dequeues the stash until it is empty and re-enqueues in dequeue order, every dequeue and its re-enqueue happen with the stash lock held (a drain is one critical section: two concurrent drains cannot interleave), unstash moves exactly one message; the stash box is a FIFO UnboundedMailbox; (4) the default mailbox's enqueue publishes in the order clear-next, swap-tail, link-prev and its dequeue follows next pointers from the head (FIFO list); (5) the turn loop dequeues the user mailbox at exactly one site. FIFO of the lock-free queues under all producer interleavings is not decided. Added with F26: released messages must re-enter the mailbox ahead of the messages queued after them; unstashAll re-enqueues at the tail (known finding F26: 1,2 stashed, 3 queued -> 3,1,2).",
 		assumptions: []string{"FIFO/linearizability of each mailbox under concurrent producers, segment roll-over and pooled-node reuse", "remote sends (ordering on the wire is C27)"},
 		minObl:     24,
 		run:        runC03,
@@ -192,6 +192,15 @@ func runC03(c *Ctx) {
 			}
 		}
 		c.Check(held, "unstashAll/drain-is-atomic", "every dequeue from the stash and the re-enqueue that follows it happen with the stash lock held: a drain is atomic with respect to a concurrent drain (stashed messages re-enter the mailbox in stash order)", c.P.Pos(ua.Decl.Pos()), "a dequeue or the doReceive of a dequeued message runs without the stash lock")
+		// Send order across an unstash: a message that arrived after the stashed ones but is already queued in the
+		// mailbox when they are released must still be processed after them. doReceive appends at the mailbox tail,
+		// so a drain that only re-enqueues through doReceive puts the stashed messages BEHIND the queued ones unless
+		// it first moves the queued messages behind the stashed ones (or re-inserts at the head).
+		mbox := c.Field("actor", "PID", "mailbox")
+		movesQueued := len(f.Find(f.CallOnField(mbox, "Dequeue"))) > 0
+		tailOnly := len(f.Find(rec)) > 0
+		c.Check(!tailOnly || movesQueued, "unstashAll/reinserted-ahead-of-queued", "released messages re-enter the mailbox ahead of the messages that were queued after them (the sender's order survives the stash)", c.P.Pos(ua.Decl.Pos()),
+			"unstashAll re-enqueues through doReceive (mailbox tail) without first moving the messages already queued behind the stashed ones: stash [1 2], mailbox [3] is processed as 3 1 2")
 		us := c.Func("actor", "PID.unstash")
 		uf := c.NewFlow(us)
 		c.Check(len(uf.Find(uf.CallOnField(box, "Dequeue"))) == 1 && len(uf.Find(uf.CallTo(doReceive.Obj))) == 1 && len(uf.loopBackEdges()) == 0, "unstash/exactly-one", "unstash moves exactly the oldest stashed message", c.P.Pos(us.Decl.Pos()), "")
